@@ -477,3 +477,19 @@ Proof.
   destruct (registry_spec S) as [reg [Hreg _]].
   eapply rebuild_erases; eauto.
 Qed.
+
+(** an executable form of [defaults_denote] *)
+Definition defaults_denote_b (S : schema) : bool :=
+  forallb (fun i => match in_default i with
+                    | None => true
+                    | Some v => match marshal S v (in_type i) with
+                                | MOk txt => literal_denotes S (in_type i) txt v
+                                | _ => false
+                                end
+                    end) (all_inputs S).
+
+Lemma defaults_denote_b_spec S : defaults_denote_b S = true -> defaults_denote S.
+Proof.
+  intros H i v Hi Hv. unfold defaults_denote_b in H. rewrite forallb_forall in H. specialize (H i Hi). rewrite Hv in H.
+  destruct (marshal S v (in_type i)) as [txt| |]; try discriminate. eauto.
+Qed.
